@@ -399,6 +399,11 @@ pub(crate) mod verif_list {
         out
     }
 
+    /// Address of the global list head (for labelling trace steps).
+    pub fn list_head_addr() -> usize {
+        &LIST_HEAD as *const _ as usize
+    }
+
     /// Node owned by the calling thread, if any.
     pub fn thread_node() -> Option<usize> {
         THREAD_HEAD
